@@ -53,13 +53,13 @@ theorem CountOk.edge {labels : List Lbl} {opt : Bool} {rid : Nat} {items : List 
   · subst h2; simp at hp
   · exact ⟨S, lv, g0, g1, h2, hp, h1, h3⟩
 
-theorem holdF_label (items : List Item) (lv i id : Nat) : holdF items lv i (.label id) = [] := by
+theorem holdF_label (opt : Bool) (items : List Item) (lv i : Nat) (prev : Item) (id : Nat) : holdF opt items lv i prev (.label id) = [] := by
   unfold holdF
   rw [if_neg]
   intro h
   simp only [Bool.and_eq_true, beq_iff_eq] at h
   rw [ESV.TableTie.op_hold_eq, realName_label] at h
-  exact labelName_ne id _ (by decide) h.1
+  exact labelName_ne id _ (by decide) h.1.1
 
 theorem n1F_length (opt : Bool) (items : List Item) (lv i : Nat) (prev it : Item) :
     (n1F opt items lv i prev it).length ≤ 1 := by
@@ -75,12 +75,12 @@ theorem nextFor_shape (labels : List Lbl) (opt : Bool) (rid : Nat) (items : List
         ((labelIndex items lid = some t) ∨ (t = g0.vs.length ∧ g1.vs = g0.vs ++ [.foreign lid]))) := by
   obtain ⟨prev, it, hp, hi⟩ := nextFor_none labels opt rid items g0 lv i S g1 h
   refine ⟨it, hi, ?_⟩
-  have fallCase : ∀ l d, ((l, d) ∈ n1F opt items lv i prev it ∨ (l, d) ∈ holdF items lv i it) →
+  have fallCase : ∀ l d, ((l, d) ∈ n1F opt items lv i prev it ∨ (l, d) ∈ holdF opt items lv i prev it) →
       (l = lv ∧ d = i + 1 ∧ i + 1 < items.length) := by
     intro l d hm
     rcases hm with hm | hm
     · have := n1F_mem _ _ _ _ _ _ _ hm; simp only [Prod.mk.injEq] at this; exact ⟨this.1.1, this.1.2, this.2⟩
-    · have := holdF_mem _ _ _ _ _ hm; simp only [Prod.mk.injEq] at this; exact ⟨this.1.1, this.1.2, this.2⟩
+    · have := holdF_mem _ _ _ _ _ _ _ hm; simp only [Prod.mk.injEq] at this; exact ⟨this.1.1, this.1.2, this.2⟩
   cases it with
   | op o =>
     have hS := nextFor_op labels opt rid items g0 g1 lv i S prev o hp hi h
@@ -97,7 +97,7 @@ theorem nextFor_shape (labels : List Lbl) (opt : Bool) (rid : Nat) (items : List
   | ljump r lid c =>
     obtain ⟨lb, hf, hcase⟩ := nextFor_ljump labels opt rid items g0 g1 lv i S prev r lid c hp hi h
     have mem3 : ∀ (t l d : Nat), (l, d) ∈ n1F opt items lv i prev (.ljump r lid c) ++ [(lv + 1, t)] ++
-        holdF items lv i (.ljump r lid c) →
+        holdF opt items lv i prev (.ljump r lid c) →
         (l = lv ∧ d = i + 1 ∧ i + 1 < items.length) ∨ (l = lv + 1 ∧ some t = some d) := by
       intro t l d hm
       rcases List.mem_append.mp hm with hm | hm
